@@ -96,7 +96,9 @@ class ModbusTcpProtocol(protocol.Protocol):
         :param message: The unencoded modbus response
         """
         if message.should_respond:
-            self.factory.control.Counter.BusMessage += 1
+            # the diagnostic counters are 16 bit wide
+            self.factory.control.Counter.BusMessage = (
+                self.factory.control.Counter.BusMessage + 1) & 0xffff
             pdu = self.framer.buildPacket(message)
             if _logger.isEnabledFor(logging.DEBUG):
                 _logger.debug('send: %s' % b2a_hex(pdu))
@@ -211,7 +213,9 @@ class ModbusUdpProtocol(protocol.DatagramProtocol):
         :param addr: The (host, port) to send the message to
         """
         if getattr(message, 'should_respond', True):
-            self.control.Counter.BusMessage += 1
+            # the diagnostic counters are 16 bit wide
+            self.control.Counter.BusMessage = (
+                self.control.Counter.BusMessage + 1) & 0xffff
             pdu = self.framer.buildPacket(message)
             if _logger.isEnabledFor(logging.DEBUG):
                 _logger.debug('send: %s' % b2a_hex(pdu))
